@@ -352,7 +352,7 @@ func tokOfJSON(b []byte) string {
 			if cf.Admin.Config != nil && cf.Admin.Config.Persist != nil {
 				letter = map[bool]string{true: "p", false: "n"}[*cf.Admin.Config.Persist]
 			}
-			return n + letter
+			return "c" + n + letter // a document adapted from a Caddyfile has no probe app: its token says so
 		}
 	}
 	var v struct {
